@@ -80,17 +80,75 @@ def same_outcome(a, b, tol=TOL, listcanon=False):
         va, vb = ra.get(k), rb.get(k)
         if va is None or vb is None:
             # an instance reported with probability 0 on one side only is still a difference in the instance set
-            return ("instance-set", "%s: %r vs %r" % (k, va, vb))
+            other = vb if va is None else va
+            kind = "instance-set"
+            if "[" in k:
+                kind = "instance-set:list-content"
+            elif isinstance(other, (int, float)) and abs(other) < 1e-12:
+                kind = "instance-set:zero-probability-instance"
+            return (kind, "%s: %r vs %r" % (k, va, vb))
         if abs(va - vb) > tol + tol * abs(vb):
             return ("value", "%s: %.12g vs %.12g" % (k, va, vb))
     return None
 
 
+def _split_top(s):
+    """split on top-level commas (respecting brackets, parentheses and quotes)"""
+    out, depth, cur, q = [], 0, "", None
+    for ch in s:
+        if q:
+            cur += ch
+            if ch == q:
+                q = None
+            continue
+        if ch in "'\"":
+            q = ch
+            cur += ch
+        elif ch in "([":
+            depth += 1
+            cur += ch
+        elif ch in ")]":
+            depth -= 1
+            cur += ch
+        elif ch == "," and depth == 0:
+            out.append(cur.strip())
+            cur = ""
+        else:
+            cur += ch
+    if cur.strip():
+        out.append(cur.strip())
+    return out
+
+
+def _canon_name(name):
+    """sort the elements of every list in a printed term (innermost first), drop blanks"""
+    out = ""
+    i = 0
+    stack = []
+    for ch in name:
+        if ch == "[":
+            stack.append(out)
+            out = ""
+        elif ch == "]" and stack:
+            inner = out
+            head, _, tail = inner.partition("|")
+            items = sorted(_split_top(head))
+            txt = ",".join(items) + (("|" + tail.strip()) if tail else "")
+            out = stack.pop() + "[" + txt + "]"
+        elif ch == " ":
+            continue
+        else:
+            out += ch
+    while stack:
+        out = stack.pop() + "[" + out
+    return out
+
+
 def canon_lists(res):
-    """sort the elements inside every [...] of a result name and add up coinciding names"""
+    """sort the elements inside every list of a result name and add up coinciding names"""
     out = {}
     for k, v in res.items():
-        k2 = re.sub(r"\[([^\[\]]*)\]", lambda m: "[" + ",".join(sorted(m.group(1).split(","))) + "]", k)
+        k2 = _canon_name(k)
         out[k2] = out.get(k2, 0.0) + v
     return out
 
